@@ -135,35 +135,7 @@ pub fn check_program(run: &Run, prog: &[OpCode], heap_name: &str, heap: &BTreeMa
             }
         }
     }
-    // the entry point consensus uses: Covenant::execute(transaction, environment) - on the environment heap it must agree as
-    // well, whatever this thread has executed before (the enumeration runs thousands of programs, failing ones among them, one
-    // after the other on every worker)
-    // (programs of up to three instructions: building the environment heap costs more than running them)
-    if heap_name == "env" && prog.len() <= 3 {
-        let cov = Covenant::from_ops(prog);
-        let e = sample_env();
-        let real_env = CovenantEnv { parent_coinid: e.parent_coinid, parent_cdh: e.parent_cdh.clone(), spender_index: e.spender_index, last_header: e.last_header };
-        let tx = sample_tx();
-        match guard(|| cov.execute(&tx, Some(real_env))) {
-            Ok(v) => {
-                let v = v.map(|v| RV::from_real(&v));
-                if v != r.result {
-                    run.violation(
-                        "C10",
-                        format!("execute-differs-from-stepped/last={}", prog.last().map(opname).unwrap_or_default()),
-                        format!("program [{}]: Covenant::execute {:?} stepped/reference {:?}", prog_str(prog), v.map(|x| x.show()), r.result.as_ref().map(|x| x.show())),
-                        replay,
-                    );
-                    return "execute-differs";
-                }
-            }
-            Err(p) => {
-                run.violation("C10", format!("execute-panics/{}", p.class()), format!("program [{}]: {}", prog_str(prog), p.msg), replay);
-                return "panic";
-            }
-        }
-    }
-        if r.result.is_some() {
+    if r.result.is_some() {
         "value"
     } else {
         "fail"
@@ -363,6 +335,109 @@ fn env_conversion(run: &Run) -> u64 {
     n
 }
 
+/// `mcheck __child c10exec <alphabet index>`: every program of up to three instructions over one alphabet, one after the other on
+/// one thread, through `Covenant::execute(transaction, environment)` - the entry point consensus uses - against the reference
+/// interpreter on the environment heap.  What one execution leaves behind on its thread (a re-used interpreter, a spare stack)
+/// is met by the next one; a program that runs away takes this child with it, not the check.
+pub fn child_main(args: &[String]) {
+    use crate::refvm::RefVm;
+    let ai: usize = args.first().and_then(|s| s.parse().ok()).unwrap_or(0);
+    let (name, alpha) = alphabets().into_iter().nth(ai).expect("alphabet index");
+    let heap = env_heap(&sample_tx(), Some(&sample_env()));
+    let e = sample_env();
+    let real_env = CovenantEnv { parent_coinid: e.parent_coinid, parent_cdh: e.parent_cdh.clone(), spender_index: e.spender_index, last_header: e.last_header };
+    let tx = sample_tx();
+    let k = alpha.len();
+    let mut n = 0u64;
+    let mut idx: Vec<usize> = vec![0];
+    let out = loop {
+        let prog: Vec<OpCode> = idx.iter().map(|i| alpha[*i].clone()).collect();
+        let mut vm = RefVm::new(prog.clone(), heap.clone());
+        let mut ok = true;
+        let mut steps = 0;
+        while !vm.done() {
+            steps += 1;
+            if steps > 200_000 || vm.step().is_none() {
+                ok = false;
+                break;
+            }
+        }
+        if steps <= 200_000 {
+            let want = if ok { vm.stack.pop() } else { None };
+            let got = match guard(|| Covenant::from_ops(&prog).execute(&tx, Some(real_env.clone()))) {
+                Ok(v) => v.map(|v| RV::from_real(&v)),
+                Err(p) => break json!({"alphabet": name, "programs": n, "mismatch": {"program": prog_str(&prog), "got": format!("panic: {}", p.msg), "want": want.map(|x| x.show())}}),
+            };
+            n += 1;
+            if got != want {
+                break json!({"alphabet": name, "programs": n, "mismatch": {"program": prog_str(&prog), "got": got.map(|x| x.show()), "want": want.map(|x| x.show())}});
+            }
+        }
+        // next program in length-lexicographic order
+        let mut pos = idx.len();
+        let mut done = false;
+        loop {
+            if pos == 0 {
+                if idx.len() == 3 {
+                    done = true;
+                } else {
+                    idx = vec![0; idx.len() + 1];
+                }
+                break;
+            }
+            pos -= 1;
+            if idx[pos] + 1 < k {
+                idx[pos] += 1;
+                for j in pos + 1..idx.len() {
+                    idx[j] = 0;
+                }
+                break;
+            }
+        }
+        if done {
+            break json!({"alphabet": name, "programs": n});
+        }
+    };
+    println!("{}", out);
+}
+
+/// Runs the four children of `child_main` (3 GiB of address space and two minutes each).
+fn execute_sequences(run: &Run) {
+    let names: Vec<&'static str> = alphabets().iter().map(|a| a.0).collect();
+    let results: Vec<(usize, crate::child::ChildOutcome)> = (0..names.len()).into_par_iter().map(|i| (i, crate::child::run_child(&["c10exec".to_string(), i.to_string()], 120.0, 3 << 30))).collect();
+    let mut total = 0u64;
+    for (i, r) in results {
+        match r {
+            crate::child::ChildOutcome::Done(v) => {
+                let n = v["programs"].as_u64().unwrap_or(0);
+                total += n;
+                run.transitions_add(n);
+                run.validated_add(n);
+                if !v["mismatch"].is_null() {
+                    run.violation(
+                        "C10",
+                        "execute-differs-from-reference/in-a-sequence".into(),
+                        format!("alphabet {}: after {} programs executed one after the other through Covenant::execute on one thread, [{}] gives {} - the reference gives {}", names[i], n, v["mismatch"]["program"].as_str().unwrap_or(""), v["mismatch"]["got"], v["mismatch"]["want"]),
+                        json!({"alphabet": names[i], "programs_before": n, "mismatch": v["mismatch"]}),
+                    );
+                } else {
+                    run.outcome_n("execute-sequence:agrees", n);
+                }
+            }
+            crate::child::ChildOutcome::Timeout(t) => {
+                run.outcome("execute-sequence:child-timed-out");
+                run.violation("C11", "execute-sequence/no-termination-within-deadline".into(), format!("alphabet {}: the sequence of all programs of up to three instructions through Covenant::execute did not finish within {:.0} s (each program weighs a few dozen units)", names[i], t), json!({"alphabet": names[i]}));
+            }
+            crate::child::ChildOutcome::Signal(sig, msg) => {
+                run.outcome("execute-sequence:child-killed");
+                run.violation("C11", format!("execute-sequence/process-killed-signal-{}", sig), format!("alphabet {}: the sequence of all programs of up to three instructions through Covenant::execute killed its process (3 GiB of address space): {}", names[i], msg), json!({"alphabet": names[i]}));
+            }
+            crate::child::ChildOutcome::Broken(b) => run.machinery_failure(&format!("C10 execute-sequence child {}: {}", names[i], b)),
+        }
+    }
+    run.set("execute_sequences", json!({"what": "every program of <= 3 instructions per alphabet, one after the other on one thread of a child process, through Covenant::execute on the environment heap against the reference interpreter", "programs": total}));
+}
+
 /// Supplement, *sampling* (labelled so in the evidence): covenants are executed by many validation threads at once, so
 /// "a deterministic function of bytecode, transaction and environment" includes "whatever the other threads are executing".
 /// Twelve threads run the same pool of signature-checking and hashing programs (tens of thousands of distinct operands,
@@ -522,6 +597,7 @@ pub fn run(run: &Run) {
         run.states_add(long_cases);
         run.set("long_string_programs", json!({"doublings": [15, 16, 17], "cases": long_cases}));
     }
+    execute_sequences(run);
     concurrent_executions(run, thorough);
     let envs = env_conversion(run);
     run.states_add(envs);
